@@ -19,10 +19,13 @@ PROP = dict(
         "Comdex.C10.close_distributes_all_partial", "Comdex.C10.close_distributes_all_counterexample",
         "Comdex.C10.v1_bidders_pay_le_target_and_receive_le_collateral", "Comdex.C10.v1_custody_exact",
         "Comdex.C10.v1_bid_moves_and_close_distributes", "Comdex.C10.v1_bid_at_posted_price",
+        "Comdex.C10.l1_bidders_pay_le_target_and_receive_le_seized", "Comdex.C10.l1_close_custody_partial",
+        "Comdex.C10.l1_bid_moves_and_close_distributes", "Comdex.C10.l1_close_custody_counterexample",
     ],
     harness_tests=["TestC10"],
     monitors=["pay_le_target", "receive_le_collateral", "books_exact", "close_distributes", "posted_price", "price_monotone", "price_in_range",
               "price_in_range_slack", "price_below_end_at_T", "start_price", "start_record", "reserve_draw_skipped", "limit_fill_overcharge",
+              "proceeds_forwarded", "lend_bonus_stranded",
               "books_exact_after_d7", "pay_le_target_after_d7", "receive_le_collateral_after_d7", "close_distributes_after_d7"],
     trusted_base=[KERNEL_TB, HARNESS_TB,
                   "Base/Dec.lean (model of sdk.Dec, validated separately against the real library by harness/dec_test.go)",
